@@ -314,7 +314,11 @@ impl Scenario for UnbondLc {
         if is_unbond {
             let (_, amt, _) = hook_info.clone().unwrap();
             let (sender, tok, _) = a.exec_parts().unwrap();
-            let credited: u128 = fx_attr(out.fx(), HUB, "unbonded_amount").and_then(|s| s.parse().ok()).unwrap_or(u128::MAX);
+            // what was credited is read from the sender's public claim list (before/after), not from response attributes
+            let col = |o: &HubObs| -> u128 {
+                o.requests.get(sender).and_then(|r| r.iter().find(|x| x.0 == po.batch.id)).map(|x| if tok == BSEI { x.1 } else { x.2 }).unwrap_or(0)
+            };
+            let credited: u128 = if USERS.contains(&sender) { col(qo).saturating_sub(col(po)) } else { fx_attr(out.fx(), HUB, "unbonded_amount").and_then(|s| s.parse().ok()).unwrap_or(amt) };
             let e = g2.ledger.entry((sender.to_string(), po.batch.id)).or_insert((0, 0));
             if tok == BSEI {
                 e.0 += credited.min(amt);
@@ -637,13 +641,16 @@ fn c01_probe(_sc: &UnbondLc, c: &Chain, o: &HubObs, cx: &mut Cx) {
                     }
                 }
                 Err(e) => {
-                    if e.contains("No withdrawable") {
-                        // acceptable only for claims worth less than one unit (conservative bound)
-                        if *val >= 1 + 3 * (*n as u128) {
+                    // a refusal is acceptable only for claims worth less than one unit (conservative bound); the
+                    // verdict depends on the value of the claims, never on the wording of the error
+                    if *val >= 1 + 3 * (*n as u128) {
+                        if e.contains("No withdrawable") {
                             cx.viol("C01.withdraw_refused", "matured claims worth at least one unit were refused", format!("user {} pro-rata value {} over {} claims: {}", u, val, n, e));
+                        } else {
+                            cx.viol("C01.withdraw_fails", format!("withdraw of matured claims fails: {}", classify_err(&e)), format!("user {} value {} (order {:?} of {:?}): {}", u, val, p, mu.iter().map(|m| m.0.clone()).collect::<Vec<_>>(), e));
                         }
                     } else {
-                        cx.viol("C01.withdraw_fails", format!("withdraw of matured claims fails: {}", classify_err(&e)), format!("user {} (order {:?} of {:?}): {}", u, p, mu.iter().map(|m| m.0.clone()).collect::<Vec<_>>(), e));
+                        cx.count("c01_probe_sub_unit_refusals");
                     }
                 }
             }
@@ -682,10 +689,9 @@ pub fn c09_matured_probe(c: &Chain, o: &HubObs, cx: &mut Cx) {
             match r {
                 Ok(_) => continue,
                 Err(e) => {
-                    if !e.contains("No withdrawable") {
-                        cx.viol("C09.can_withdraw", format!("withdraw after the unbonding period fails: {}", classify_err(&e)), format!("{} (attempt {}): {}", u, round + 1, e));
-                    } else if val >= 1 + 3 * n as u128 && (clean || round > 0) {
-                        cx.viol("C09.can_withdraw", "claims worth at least one unit refused after the unbonding period", format!("{} (attempt {}): matured value {} over {} claims", u, round + 1, val, n));
+                    if val >= 1 + 3 * n as u128 && (clean || round > 0 || !e.contains("No withdrawable")) {
+                        let what = if e.contains("No withdrawable") { "claims worth at least one unit refused after the unbonding period".to_string() } else { format!("withdraw after the unbonding period fails: {}", classify_err(&e)) };
+                        cx.viol("C09.can_withdraw", what, format!("{} (attempt {}): matured value {} over {} claims: {}", u, round + 1, val, n, e));
                     }
                     break;
                 }
